@@ -287,13 +287,12 @@ def _worker_init():
 
 
 _MODULE_SNAPSHOT = {}
+_RESET_PLAN = {'caches': [], 'containers': [], 'calls': 0}
 
 
-def reset_library_state():
-    """Return every lentil module to its import-time state without re-importing it: module-level mutable containers
-    (dict / list / set) are restored to their first-seen content and every functools cache is cleared.  This makes hidden
-    process-global state (memo tables, LRU caches) a function of the explored history instead of the worker's past."""
+def _scan_library_state():
     import copy as _copy
+    caches, containers = [], []
     for mname, mod in list(sys.modules.items()):
         if mod is None or not (mname == 'lentil' or mname.startswith('lentil.')):
             continue
@@ -301,7 +300,7 @@ def reset_library_state():
             if name.startswith('__'):
                 continue
             if callable(getattr(val, 'cache_clear', None)):
-                val.cache_clear()
+                caches.append(val)
             elif isinstance(val, (dict, list, set)):
                 key = (mname, name)
                 if key not in _MODULE_SNAPSHOT:
@@ -309,19 +308,32 @@ def reset_library_state():
                         _MODULE_SNAPSHOT[key] = _copy.deepcopy(val)
                     except Exception:
                         _MODULE_SNAPSHOT[key] = None
-                    continue
-                snap = _MODULE_SNAPSHOT[key]
-                if snap is None:
-                    continue
-                try:
-                    if val != snap:
-                        val.clear()
-                        if isinstance(val, list):
-                            val.extend(_copy.deepcopy(snap))
-                        else:
-                            val.update(_copy.deepcopy(snap))
-                except Exception:
-                    pass
+                if _MODULE_SNAPSHOT[key] is not None:
+                    containers.append((val, _MODULE_SNAPSHOT[key]))
+    _RESET_PLAN['caches'], _RESET_PLAN['containers'] = caches, containers
+
+
+def reset_library_state():
+    """Return every lentil module to its import-time state without re-importing it: module-level mutable containers
+    (dict / list / set) are restored to their first-seen content and every functools cache is cleared.  This makes hidden
+    process-global state (memo tables, LRU caches) a function of the explored history instead of the worker's past.
+    The module scan is repeated every 2000 calls (module globals created later are picked up then)."""
+    import copy as _copy
+    if _RESET_PLAN['calls'] % 2000 == 0:
+        _scan_library_state()
+    _RESET_PLAN['calls'] += 1
+    for c in _RESET_PLAN['caches']:
+        c.cache_clear()
+    for val, snap in _RESET_PLAN['containers']:
+        try:
+            if val != snap:
+                val.clear()
+                if isinstance(val, list):
+                    val.extend(_copy.deepcopy(snap))
+                else:
+                    val.update(_copy.deepcopy(snap))
+        except Exception:
+            pass
 
 
 class CaseTimeout(Exception):
